@@ -99,7 +99,9 @@ type VCGen struct {
 	ghost       map[string]string
 	warnings    []string
 	retCount    int
+	freshBases  map[string]bool
 	inlineDepth int
+	immTypesDone bool
 	imapBySort  map[string]*imapInfo
 	ilistBySort map[string]*ilistInfo
 }
@@ -470,6 +472,9 @@ func (g *VCGen) updatePath(cell string, path []pathStep, v string) string {
 }
 
 func (g *VCGen) setHeap(st *State, heap, term string) {
+	if g.immutableHeap(heap) {
+		panic(unsupported("update of heap " + heap + ", which is declared immutable"))
+	}
 	name := g.freshName(heap)
 	g.declare(name, g.so.heaps[heap])
 	g.assume(fmt.Sprintf("(= %s %s)", name, term))
@@ -477,6 +482,9 @@ func (g *VCGen) setHeap(st *State, heap, term string) {
 }
 
 func (g *VCGen) store(st *State, a *Addr, v string) {
+	if a.Kind == "elem" && g.immutableHeap(a.Heap) && !g.freshBases[a.Ref] {
+		g.oblige("immutableheap.store@"+a.Heap, "writeonce", "false", "store into a slice whose element heap is declared immutable", token.NoPos)
+	}
 	h := g.heapTerm(st, a.Heap)
 	cell := g.loadCell(st, a)
 	nv := g.updatePath(cell, a.Path, v)
